@@ -74,6 +74,10 @@ def build_host(variant: str, fd: int, sd: int, rd: int, nd: int, via_defaults: b
         a["applications"] = [{"type": "database-client", "options": {"fixing_duration": fd, "db_server_ip": "192.168.1.3"}}]
         # (files of an unknown type have size 0: the folder holds files, yet its size is 0)
         sw_kind, sw_name, folder, files = "application", "database-client", "vf", ("key", "x.qq9")
+    if via_defaults and folder == "vf":
+        # the folder is DECLARED for the node: it exists when the defaults block is applied (folders made later take the
+        # file system's default; both kinds must end up with the stated durations, 0 included)
+        a["folders"] = [{"folder_name": folder}]
     game = scenarios.build(cfg)
     sim = game.simulation
     node = sim.network.get_node_by_hostname("a")
@@ -107,7 +111,8 @@ def run_behaviour(beh, variant: str, durs, via_defaults: bool, rng: random.Rando
     game.pre_timestep()
     game.advance_timestep()
     tr = Track(h["node"], sw=sw, folder=h["folder"], files=h["files"],
-               meta={"scale": "host", "variant": variant, "via_defaults": via_defaults})
+               meta={"scale": "host", "variant": variant, "via_defaults": via_defaults},
+               declared={"fix": fd, "scan": sd, "rest": rd, "node": nd} if via_defaults else None)
     REC.attach(tr)
     ops: List[Any] = []
     node_p = ["network", "node", "a"]
